@@ -7,11 +7,13 @@
    [sess_recount t c] = prefixes for which session (Source) [c] has a path,
    [ctr_of t c] the prefix-limit counter of session [c], [t_bad] = a statistics
    decrement underflowed (debug panic / release wrap),
-   [Known_C15_two_sessions a shard ops] = the input class of the open finding
-   C15-session-counter (a session of peer [a] acts while the RIB still holds
-   paths of another session of [a]). *)
+   [Known_C15_session_touch c shard ops] = the input class of the open finding
+   C15-session-counter, as narrow as the defect: at some step an operation acting
+   for a session of a peer (insert, withdrawal, purge carrying its counter)
+   touches a destination holding a path of the same peer that belongs to another
+   session, and [c] is the acting session or the owner of such a path. *)
 From Coq Require Import List NArith ZArith Bool.
-From RB Require Import Base.Val Model.Rib Spec.RibSpec Proofs.RibInv Proofs.RibC02 Proofs.RibC15 Proofs.RibC15L.
+From RB Require Import Base.Val Model.Rib Spec.RibSpec Proofs.RibInv Proofs.RibC02 Proofs.RibC15 Proofs.RibC15L Proofs.RibViews.
 Import ListNotations.
 Open Scope N_scope.
 
@@ -75,7 +77,7 @@ Theorem limit_counter_refuted :
   exists shard ops f mx c,
     Forall (op_wf f) ops /\ Forall (ctr_disciplined f mx) ops /\ mx c < 4294967296
     /\ session_alive (f c) c false ops = true
-    /\ Known_C15_two_sessions (f c) shard ops
+    /\ Known_C15_session_touch c shard ops
     /\ ctr_of (run (empty_table shard) ops) c = 18446744073709551615
     /\ sess_recount (run (empty_table shard) ops) c = 0
     /\ snd (step (run (empty_table shard) ops)
@@ -85,7 +87,7 @@ Check limit_counter_refuted :
   exists shard ops f mx c,
     Forall (op_wf f) ops /\ Forall (ctr_disciplined f mx) ops /\ mx c < 4294967296
     /\ session_alive (f c) c false ops = true
-    /\ Known_C15_two_sessions (f c) shard ops
+    /\ Known_C15_session_touch c shard ops
     /\ ctr_of (run (empty_table shard) ops) c = 18446744073709551615
     /\ sess_recount (run (empty_table shard) ops) c = 0
     /\ snd (step (run (empty_table shard) ops)
@@ -100,7 +102,7 @@ Theorem limit_respected_outside_known :
   forall f mx shard ops c,
     Forall (op_wf f) ops -> Forall (ctr_disciplined f mx) ops -> mx c < 4294967296 ->
     session_alive (f c) c false ops = true ->
-    ~ Known_C15_two_sessions (f c) shard ops ->
+    ~ Known_C15_session_touch c shard ops ->
     let t := run (empty_table shard) ops in
     ctr_of t c = sess_recount t c /\ sess_recount t c <= mx c.
 Proof. exact C15_limit_respected_outside_known. Qed.
@@ -108,7 +110,7 @@ Check limit_respected_outside_known :
   forall f mx shard ops c,
     Forall (op_wf f) ops -> Forall (ctr_disciplined f mx) ops -> mx c < 4294967296 ->
     session_alive (f c) c false ops = true ->
-    ~ Known_C15_two_sessions (f c) shard ops ->
+    ~ Known_C15_session_touch c shard ops ->
     let t := run (empty_table shard) ops in
     ctr_of t c = sess_recount t c /\ sess_recount t c <= mx c.
 Print Assumptions limit_respected_outside_known.
@@ -142,3 +144,58 @@ Check remove_finds_stats :
     alookup net (t_dests t) = Some d -> find (same_key s rpid) (d_entries d) = Some removed ->
     alookup (s_addr s) (t_stats t) <> None.
 Print Assumptions remove_finds_stats.
+
+(* The statistics of a peer are what its Adj-RIB-In view shows: received = prefixes with
+   a non-empty view (filtered paths included), accepted = paths in the view without
+   the filtered ones. *)
+Theorem stats_eq_adjin_view :
+  forall shard ops a r c,
+    let t := run (empty_table shard) ops in
+    alookup a (t_stats t) = Some (r, c) ->
+    r = N.of_nat (length (filter (fun nd => match adj_in a true (snd nd) with [] => false | _ => true end) (t_dests t)))
+    /\ c = N.of_nat (length (flat_map (fun nd => adj_in a false (snd nd)) (t_dests t))).
+Proof. exact C15_stats_eq_adjin_view. Qed.
+Check stats_eq_adjin_view :
+  forall shard ops a r c,
+    let t := run (empty_table shard) ops in
+    alookup a (t_stats t) = Some (r, c) ->
+    r = N.of_nat (length (filter (fun nd => match adj_in a true (snd nd) with [] => false | _ => true end) (t_dests t)))
+    /\ c = N.of_nat (length (flat_map (fun nd => adj_in a false (snd nd)) (t_dests t))).
+Print Assumptions stats_eq_adjin_view.
+
+(* The class of the open finding was narrowed: every history in the class used now
+   (Known_C15_session_touch, per session and per destination touched) is in the class
+   used before (Known_C15_two_sessions, per peer and whole table). *)
+Theorem known_class_narrowed :
+  forall f mx shard ops c,
+    Forall (op_wf f) ops -> Forall (ctr_disciplined f mx) ops ->
+    Known_C15_session_touch c shard ops -> Known_C15_two_sessions (f c) shard ops.
+Proof. exact C15_known_class_narrowed. Qed.
+Check known_class_narrowed :
+  forall f mx shard ops c,
+    Forall (op_wf f) ops -> Forall (ctr_disciplined f mx) ops ->
+    Known_C15_session_touch c shard ops -> Known_C15_two_sessions (f c) shard ops.
+Print Assumptions known_class_narrowed.
+
+(* Outside the known class PrefixLimitExceeded is answered to a session only when it
+   really holds its maximum number of prefixes (no new prefix is rejected early). *)
+Theorem limit_signalled_only_when_full :
+  forall f mx shard ops c s net rpid nh a filt nhinv,
+    Forall (op_wf f) ops -> Forall (ctr_disciplined f mx) ops -> mx c < 4294967296 ->
+    session_alive (f c) c false ops = true ->
+    ~ Known_C15_session_touch c shard ops ->
+    let t := run (empty_table shard) ops in
+    s_tok s = c ->
+    snd (step t (Insert s net rpid nh a filt nhinv (Some (mx c, c)))) = true ->
+    sess_recount t c = mx c.
+Proof. exact C15_limit_signalled_only_when_full. Qed.
+Check limit_signalled_only_when_full :
+  forall f mx shard ops c s net rpid nh a filt nhinv,
+    Forall (op_wf f) ops -> Forall (ctr_disciplined f mx) ops -> mx c < 4294967296 ->
+    session_alive (f c) c false ops = true ->
+    ~ Known_C15_session_touch c shard ops ->
+    let t := run (empty_table shard) ops in
+    s_tok s = c ->
+    snd (step t (Insert s net rpid nh a filt nhinv (Some (mx c, c)))) = true ->
+    sess_recount t c = mx c.
+Print Assumptions limit_signalled_only_when_full.
